@@ -12,6 +12,11 @@ case "$PROP" in
   C01|C05|C18) MIRI=0; FUZZ=1; FUZZO=0 ;;
   *) exit 0 ;;
 esac
+# engines the fuzz campaigns are run for (each with its own corpus and processes)
+case "$PROP" in
+  C02|C03|C04|C05|C17) ENGINES="maphist sethist" ;;
+  *) ENGINES="maphist" ;;
+esac
 ENGINE=maphist
 memprop() { case "$PROP" in C02|C03|C04|C17|C18) return 0 ;; *) return 1 ;; esac; }
 
@@ -75,6 +80,8 @@ fuzz_campaign() { # flags suffix
   echo "{\"platform\":\"libFuzzer+ASan $label\",\"executions\":$total}" >> "$W/extra-$PROP.jsonl"
 }
 
-if [ $FUZZ -eq 1 ]; then fuzz_campaign "" "$H/fuzz/target-a" "asan-a"; fi
-if [ $FUZZO -eq 1 ]; then fuzz_campaign "-O" "$H/fuzz/target-O" "asan-O"; fi
+for ENGINE in $ENGINES; do
+  if [ $FUZZ -eq 1 ]; then fuzz_campaign "" "$H/fuzz/target-a" "asan-a-$ENGINE"; fi
+  if [ $FUZZO -eq 1 ]; then fuzz_campaign "-O" "$H/fuzz/target-O" "asan-O-$ENGINE"; fi
+done
 exit 0
